@@ -317,6 +317,9 @@ def run_files(fields):
         os.makedirs(ind)
         if opts.get("precreate_out"):
             os.makedirs(outd)
+        if opts.get("out_is_file"):
+            with open(outd, "w") as f:
+                f.write("KEEP ME\n")
         before = {}
         for rel, content, extra in tree:
             pth = os.path.join(ind, rel)
@@ -347,6 +350,8 @@ def run_files(fields):
                   preserve_suffix_v4=opts.get("b4"), preserve_suffix_v6=opts.get("b6"))
         single = opts.get("single")
         src = os.path.join(ind, single) if single else ind
+        if opts.get("input_missing"):
+            src = os.path.join(root, "no-such-input")
         dst = os.path.join(root, "single.out") if single else outd
         if single and opts.get("single_out_is_dir"):
             os.makedirs(dst)
@@ -432,6 +437,8 @@ def run_files(fields):
                     out[rel] = open(os.path.join(r, f), "rb").read().decode("utf-8", "replace")
         unchanged = all(open(os.path.join(ind, rel), "rb").read() == data for rel, data in before.items())
         listing = sorted(os.path.relpath(os.path.join(r, f), root) for r, d, fs in os.walk(root) for f in fs)
+        if opts.get("out_is_file"):
+            out = {"<the pre-existing output file>": open(outd).read() if os.path.isfile(outd) else "<gone>"}
         return json.dumps({"out": out, "inputs_unchanged": unchanged, "listing": listing, "errors": [e.replace(root, "<ROOT>") for e in errors],
                            "dump": open(dumpf).read() if dumpf and os.path.exists(dumpf) else None, "raised": raised})
     finally:
